@@ -456,7 +456,7 @@ func TestVerifC05(t *testing.T) {
 	rep.Rule = "every multiset of at most R rows over a 9-letter row alphabet (4 metrics in 2 namespaces / 3 groups with unequal weights; one NoSampleAgent metric; one metric with a fair key of 2 values; sizes 0/1/2; whale weights; rows with and without a unique-set) x every budget x no / one fixed per-metric budget x all 128 combinations of the 7 sampler options; for each, every outcome of every rounding draw and every grid point of every selection draw. Non-trivial = some row is kept with probability strictly between 0 and 1"
 	maxRows := mc.Pick(3, 4)
 	budgets := mc.Pick([]int64{1, 2, 3, 100}, []int64{0, 1, 2, 3, 4, 6, 100})
-	maxExec := int64(mc.Pick(16000, 120000))
+	maxExec := int64(mc.Pick(16000, 400000))
 	type fixedVar struct {
 		m int32
 		b uint32
@@ -464,12 +464,12 @@ func TestVerifC05(t *testing.T) {
 	fixed := mc.Pick([]fixedVar{{0, 0}, {1, 1}, {4, 2}}, []fixedVar{{0, 0}, {1, 1}, {1, 2}, {4, 2}, {3, 1}})
 	variants := mc.Pick(1, 2)
 	rep.Bounds["max_rows"] = maxRows
-	rep.Bounds["reduced_product_for_4_rows"] = "weight world 0, fixed budgets {none,(m1,1)}, budgets {1,2,3,4,100}"
+	rep.Bounds["reduced_product_for_4_rows"] = "6-letter alphabet (without m4s0, m4s1u, m1s2u), weight world 0, fixed budgets {none,(m1,1)}, budgets {2,3}, 32 option combinations (DisableNoSampleAgent off, SampleBudgets iff a fixed budget is present)"
 	rep.Bounds["row_alphabet"] = fmt.Sprintf("%+v", c05Alphabet)
 	rep.Bounds["budgets"] = fmt.Sprint(budgets)
 	rep.Bounds["fixed_per_metric_budgets_metric_budget"] = fmt.Sprint(fixed)
 	rep.Bounds["option_combinations"] = mc.Pick("all 128 for buckets of <= 2 rows; 64 (DisableNoSampleAgent off) for 3 rows", "all 128")
-	rep.Bounds["weight_worlds"] = variants
+	rep.Bounds["weight_worlds"] = fmt.Sprintf("%d (the second one for buckets of <= 2 rows)", variants)
 	rep.Bounds["max_selection_grid"] = c05MaxGrid
 	rep.Bounds["max_executions_per_case"] = maxExec
 	rep.Assume("rows of size < 1 are discarded by Add by design; they are held to the exactly-one-callback clause only")
@@ -485,9 +485,16 @@ func TestVerifC05(t *testing.T) {
 			has[c05Alphabet[r].metric] = true
 		}
 		big := len(rows) >= 4 // thorough tier only: reduced product for the largest buckets
+		if big {
+			for _, r := range rows {
+				if n := c05Alphabet[r].name; n == "m4s0" || n == "m4s1u" || n == "m1s2u" {
+					return
+				}
+			}
+		}
 		for v := 0; v < variants; v++ {
-			if big && v > 0 {
-				continue
+			if len(rows) >= 3 && v > 0 {
+				continue // the second weight world only for buckets of <= 2 rows
 			}
 			for fi, fv := range fixed {
 				if fv.m != 0 && !has[fv.m] {
@@ -497,7 +504,7 @@ func TestVerifC05(t *testing.T) {
 					continue
 				}
 				for _, b := range budgets {
-					if big && (b == 0 || b == 5 || b == 6 || b == 8) {
+					if big && !(b == 2 || b == 3) {
 						continue
 					}
 					for fl := 0; fl < 128; fl++ {
@@ -506,6 +513,9 @@ func TestVerifC05(t *testing.T) {
 						}
 						if !mc.Thorough() && len(rows) >= 3 && fl&4 != 0 {
 							continue // quick tier, 3 rows: DisableNoSampleAgent stays off (thorough has it)
+						}
+						if big && (fl&4 != 0 || (fv.m == 0 && fl&8 != 0)) {
+							continue // 4 rows: DisableNoSampleAgent off, SampleBudgets only together with a fixed budget
 						}
 						cases = append(cases, c05Case{rows: append([]int{}, rows...), flags: fl, budget: b, fixedM: fv.m, fixedB: fv.b, variant: v})
 					}
@@ -519,6 +529,8 @@ func TestVerifC05(t *testing.T) {
 	total := mc.Stats{Exhaustive: true, BoundDone: -1}
 	var nCases, nNontrivial, skippedGrid, skippedTree int64
 	gridHist := map[int]int64{}
+	execByRows := map[int]int64{}
+	casesByRows := map[int]int64{}
 	outcomes := map[string]struct{}{}
 	k, n := mc.ShardFromEnv()
 	c05Parallel(len(cases), func(i int) {
@@ -534,6 +546,8 @@ func TestVerifC05(t *testing.T) {
 		mu.Lock()
 		defer mu.Unlock()
 		nCases++
+		casesByRows[len(c.rows)]++
+		execByRows[len(c.rows)] += res.execs
 		for _, st := range stats {
 			total.Executions += st.Executions
 			total.Points += st.Points
@@ -578,6 +592,8 @@ func TestVerifC05(t *testing.T) {
 	rep.Bounds["cases_skipped_grid_above_max"] = skippedGrid
 	rep.Bounds["cases_skipped_tree_above_max_executions"] = skippedTree
 	rep.Bounds["selection_grid_histogram"] = fmt.Sprint(gridHist)
+	rep.Bounds["cases_by_bucket_rows"] = fmt.Sprint(casesByRows)
+	rep.Bounds["executions_by_bucket_rows"] = fmt.Sprint(execByRows)
 	if skippedGrid+skippedTree > 0 {
 		rep.Cap(fmt.Sprintf("%d cases not decided (selection grid > %d: %d, choice tree > %d executions: %d)", skippedGrid+skippedTree, c05MaxGrid, skippedGrid, maxExec, skippedTree))
 	}
